@@ -85,7 +85,8 @@ partial def jEq : Json.JVal → Json.JVal → Bool
 partial def keysOk (tbl : Tbl) (sdl : Bool) : V → Bool
   | .list xs => xs.all (keysOk tbl sdl)
   | .map kvs => kvs.all (fun p =>
-      (if sdl then !p.1.isEmpty && p.1.all (isToken tbl) else p.1.all (fun c => c != '"' && c != '\\' && c.toNat ≥ 32)) && keysOk tbl sdl p.2)
+      (if sdl then !p.1.isEmpty && p.1.all (isToken tbl)
+       else tbl.jsonKeysEscaped || p.1.all (fun c => c != '"' && c != '\\' && c.toNat ≥ 32)) && keysOk tbl sdl p.2)
   | _ => true
 
 def handle (tb : Tables) (c impl : T) : String :=
@@ -114,7 +115,7 @@ def handle (tb : Tables) (c impl : T) : String :=
       let specOk : Bool := match impl with
         | .node "obs" [_, rb, j] => wmatch want rb && (sdl || (j == T.ofBool true && jsonModel))
         | _ => false
-      verdictAttr impl cur specOk (if keysOk tbl sdl val then [] else ["D22"])
+      verdictAttr impl cur specOk (if keysOk tbl sdl val then [] else [if sdl then "D22" else "D22-json"])
     | _, _, _ => "bad-op"
   | .node "c18raw" [_] =>
     -- bytes that are not valid UTF-8: outside the character-level model; only the JSON clause is judged
@@ -123,6 +124,6 @@ def handle (tb : Tables) (c impl : T) : String :=
      | _ => "bad-op")
   | _ => "bad-op"
 
-def flags (_tb : Tables) : List (String × Bool) := [("D22", true)]
+def flags (tb : Tables) : List (String × Bool) := [("D22", true), ("D22-json", !(tblOf tb).jsonKeysEscaped)]
 
 end Ggql.Driver.C18
